@@ -262,10 +262,10 @@ Proof.
 Qed.
 
 Ltac flat_r :=
-  cbn [rbind upd_register or_default option_map rg_cfg rg_name rg_access rg_byte_order rg_bit_order
+  unfold upd_register; cbn [rbind or_default option_map rg_cfg rg_name rg_access rg_byte_order rg_bit_order
        rg_allow_bit_overlap rg_allow_address_overlap rg_address rg_size_bits rg_reset rg_repeat rg_fields].
 Ltac flat_c :=
-  cbn [rbind upd_command or_default option_map cm_cfg cm_name cm_address cm_byte_order cm_bit_order
+  unfold upd_command; cbn [rbind or_default option_map cm_cfg cm_name cm_address cm_byte_order cm_bit_order
        cm_allow_bit_overlap cm_allow_address_overlap cm_size_in cm_size_out cm_repeat cm_in_fields cm_out_fields].
 
 Lemma m_register_spec : forall toml g h r,
@@ -297,17 +297,17 @@ Proof.
   rewrite foldM_app, (seg_m (m_register_step dfa) "access" m_of_access
                          (fun x s => upd_register s NN x NN NN NN NN NN NN NN NN NN) always);
     [|intros a0 _; rewrite ?rstep_access, ?rstep_byte_order, ?rstep_bit_order, m_access_ok; reflexivity
-     |reflexivity|apply opt_ok_always].
+     |flat_r; reflexivity|apply opt_ok_always].
   flat_r.
   rewrite foldM_app, (seg_m (m_register_step dfa) "byte_order" m_of_byte_order
                          (fun x s => upd_register s NN NN (option_map Some x) NN NN NN NN NN NN NN NN) always);
     [|intros a0 _; rewrite ?rstep_access, ?rstep_byte_order, ?rstep_bit_order, m_byte_order_ok; reflexivity
-     |reflexivity|apply opt_ok_always].
+     |flat_r; reflexivity|apply opt_ok_always].
   flat_r.
   rewrite foldM_app, (seg_m (m_register_step dfa) "bit_order" m_of_bit_order
                          (fun x s => upd_register s NN NN NN x NN NN NN NN NN NN NN) always);
     [|intros a0 _; rewrite ?rstep_access, ?rstep_byte_order, ?rstep_bit_order, m_bit_order_ok; reflexivity
-     |reflexivity|apply opt_ok_always].
+     |flat_r; reflexivity|apply opt_ok_always].
   flat_r.
   rewrite foldM_app. cbn [opt_key foldM]. rewrite rstep_address. cbn in Hok. rewrite (as_int_ok _ Hok).
   flat_r.
@@ -317,20 +317,20 @@ Proof.
   rewrite foldM_app, (seg_m (m_register_step dfa) "reset_value" m_of_reset
                          (fun x s => upd_register s NN NN NN NN NN NN NN NN (option_map Some x) NN NN) reset_ok);
     [|intros a0 Ha0; rewrite rstep_reset_value, (m_reset_ok _ Ha0); reflexivity
-     |reflexivity|assumption].
+     |flat_r; reflexivity|assumption].
   flat_r.
   rewrite foldM_app, (seg_m (m_register_step dfa) "repeat" m_of_repeat
                          (fun x s => upd_register s NN NN NN NN NN NN NN NN NN (option_map Some x) NN) repeat_ok);
     [|intros a0 Ha0; rewrite rstep_repeat, (m_repeat_ok _ Ha0); reflexivity
-     |reflexivity|assumption].
+     |flat_r; reflexivity|assumption].
   flat_r.
   rewrite foldM_app, (seg_m (m_register_step dfa) "allow_bit_overlap" MBool
                          (fun x s => upd_register s NN NN NN NN x NN NN NN NN NN NN) always);
-    [|intros a0 _; rewrite rstep_allow_bit_overlap; reflexivity|reflexivity|apply opt_ok_always].
+    [|intros a0 _; rewrite rstep_allow_bit_overlap; reflexivity|flat_r; reflexivity|apply opt_ok_always].
   flat_r.
   rewrite foldM_app, (seg_m (m_register_step dfa) "allow_address_overlap" MBool
                          (fun x s => upd_register s NN NN NN NN NN x NN NN NN NN NN) always);
-    [|intros a0 _; rewrite rstep_allow_address_overlap; reflexivity|reflexivity|apply opt_ok_always].
+    [|intros a0 _; rewrite rstep_allow_address_overlap; reflexivity|flat_r; reflexivity|apply opt_ok_always].
   flat_r.
   destruct (ar_fields r) as [|f0 ft] eqn:Ef.
   - cbn [foldM]. unfold class_of. f_equal.
@@ -366,51 +366,51 @@ Proof.
   rewrite foldM_app, (seg_m (m_command_step dfa) "byte_order" m_of_byte_order
                          (fun x s => upd_command s NN (option_map Some x) NN NN NN NN NN NN NN NN NN) always);
     [|intros a0 _; rewrite ?cstep_byte_order, ?cstep_bit_order, m_byte_order_ok; reflexivity
-     |reflexivity|apply opt_ok_always].
+     |flat_c; reflexivity|apply opt_ok_always].
   flat_c.
   rewrite foldM_app, (seg_m (m_command_step dfa) "bit_order" m_of_bit_order
                          (fun x s => upd_command s NN NN x NN NN NN NN NN NN NN NN) always);
     [|intros a0 _; rewrite ?cstep_byte_order, ?cstep_bit_order, m_bit_order_ok; reflexivity
-     |reflexivity|apply opt_ok_always].
+     |flat_c; reflexivity|apply opt_ok_always].
   flat_c.
   rewrite foldM_app. cbn [opt_key foldM]. rewrite cstep_address. cbn in Hok. rewrite (as_int_ok _ Hok).
   flat_c.
   rewrite foldM_app, (seg_m (m_command_step dfa) "repeat" m_of_repeat
                          (fun x s => upd_command s NN NN NN NN NN NN NN NN (option_map Some x) NN NN) repeat_ok);
     [|intros a0 Ha0; rewrite cstep_repeat, (m_repeat_ok _ Ha0); reflexivity
-     |reflexivity|assumption].
+     |flat_c; reflexivity|assumption].
   flat_c.
   rewrite foldM_app, (seg_m (m_command_step dfa) "allow_bit_overlap" MBool
                          (fun x s => upd_command s NN NN NN x NN NN NN NN NN NN NN) always);
-    [|intros a0 _; rewrite cstep_allow_bit_overlap; reflexivity|reflexivity|apply opt_ok_always].
+    [|intros a0 _; rewrite cstep_allow_bit_overlap; reflexivity|flat_c; reflexivity|apply opt_ok_always].
   flat_c.
   rewrite foldM_app, (seg_m (m_command_step dfa) "allow_address_overlap" MBool
                          (fun x s => upd_command s NN NN NN NN x NN NN NN NN NN NN) always);
-    [|intros a0 _; rewrite cstep_allow_address_overlap; reflexivity|reflexivity|apply opt_ok_always].
+    [|intros a0 _; rewrite cstep_allow_address_overlap; reflexivity|flat_c; reflexivity|apply opt_ok_always].
   flat_c.
   rewrite foldM_app, (seg_m (m_command_step dfa) "size_bits_in" MInt
                          (fun x s => upd_command s NN NN NN NN NN NN x NN NN NN NN) in_u32);
     [|intros a0 Ha0; rewrite ?cstep_size_bits_in, ?cstep_size_bits_out, (as_u32_ok _ Ha0); reflexivity
-     |reflexivity|assumption].
+     |flat_c; reflexivity|assumption].
   flat_c.
   rewrite foldM_app, (seg_m (m_command_step dfa) "fields_in" (fields_to_m toml)
                          (fun x s => upd_command s NN NN NN NN NN NN NN NN NN
                                                  (option_map (map (spec_field_m dfa)) x) NN) fields_ok);
     [|intros a0 Ha0; rewrite ?cstep_fields_in, ?cstep_fields_out,
         (m_fields_ok toml dfa a0 (fields_ok_field_ok _ Ha0)); reflexivity
-     |reflexivity|assumption].
+     |flat_c; reflexivity|assumption].
   flat_c.
   rewrite foldM_app, (seg_m (m_command_step dfa) "size_bits_out" MInt
                          (fun x s => upd_command s NN NN NN NN NN NN NN x NN NN NN) in_u32);
     [|intros a0 Ha0; rewrite ?cstep_size_bits_in, ?cstep_size_bits_out, (as_u32_ok _ Ha0); reflexivity
-     |reflexivity|assumption].
+     |flat_c; reflexivity|assumption].
   flat_c.
   rewrite (seg_m (m_command_step dfa) "fields_out" (fields_to_m toml)
                  (fun x s => upd_command s NN NN NN NN NN NN NN NN NN NN
                                          (option_map (map (spec_field_m dfa)) x)) fields_ok);
     [|intros a0 Ha0; rewrite ?cstep_fields_in, ?cstep_fields_out,
         (m_fields_ok toml dfa a0 (fields_ok_field_ok _ Ha0)); reflexivity
-     |reflexivity|assumption].
+     |flat_c; reflexivity|assumption].
   unfold class_of. f_equal.
   destruct (h_cfg h), (ak_byte_order c), (ak_repeat c), (ak_fields_in c), (ak_fields_out c); reflexivity.
 Qed.
@@ -426,4 +426,133 @@ Lemma m_buffer_spec : forall g h b,
 Proof.
   intros g [[c|] [|] n] [[[| |]|] [a|]] H; unfold m_buffer, spec_buffer, head_keys; cbn in H |- *;
     rewrite ?H; reflexivity.
+Qed.
+
+(* ---- ref overrides ---- *)
+
+Lemma in_override_class : forall k, err_class (in_override (mk_err "manifest_unexpected_key" [k])) = ov_forbidden.
+Proof. reflexivity. Qed.
+
+Lemma mget_head_type : forall ty h rest, mget "type" (head_keys ty h ++ rest) = Some (MStr ty).
+Proof. intros. reflexivity. Qed.
+
+Definition ov_result (r : result override) : result override :=
+  match r with ROk o => ROk o | RErr e => RErr (in_override e) end.
+
+Definition upd_ro (s : reg_ov) (acc : option access) (addr : option Z) (allow : option bool)
+           (reset : option reset_value) (rep : option repeat) : reg_ov :=
+  {| ro_access := match acc with Some a => Some a | None => ro_access s end;
+     ro_address := match addr with Some a => Some a | None => ro_address s end;
+     ro_allow := or_default allow (ro_allow s);
+     ro_reset := match reset with Some a => Some a | None => ro_reset s end;
+     ro_repeat := match rep with Some a => Some a | None => ro_repeat s end |}.
+
+Definition upd_co (s : cmd_ov) (addr : option Z) (allow : option bool) (rep : option repeat) : cmd_ov :=
+  {| co_address := match addr with Some a => Some a | None => co_address s end;
+     co_allow := or_default allow (co_allow s);
+     co_repeat := match rep with Some a => Some a | None => co_repeat s end |}.
+
+Ltac flat_ro := unfold upd_ro; cbn [rbind or_default ro_access ro_address ro_allow ro_reset ro_repeat].
+Ltac flat_co := unfold upd_co; cbn [rbind or_default co_address co_allow co_repeat].
+
+Lemma m_override_spec : forall toml ov,
+  object_ok ov = true ->
+  class_of (ov_result (m_object_override (h_name (ahead_of ov)) (obj_to_m toml ov))) = class_of (spec_override ov).
+Proof.
+  intros toml [h off rep order objs|h r|h c|h b|h ov'] Hok; cbn [obj_to_m spec_override ahead_of];
+    unfold m_object_override; cbn [as_map rbind]; rewrite mget_head_type; cbn [as_string rbind]; keys;
+    try reflexivity.
+  - (* block *)
+    cbn [object_ok] in Hok. apply andb_prop in Hok. destruct Hok as [Hok _]. apply andb_prop in Hok. destruct Hok as [Ho Hr].
+    destruct h as [[c|] [|] n]; cbn [head_plain h_cfg h_doc h_name is_none negb andb];
+      unfold head_keys; cbn [h_cfg h_doc opt_key app foldM]; unfold m_block_override_step at 1; keys; cbn [rbind];
+      try (unfold m_block_override_step at 1; keys; cbn [rbind ov_result class_of]; reflexivity).
+    destruct off as [o|], rep as [r|]; cbn [opt_key app foldM] in *;
+      repeat (unfold m_block_override_step at 1; keys; cbn [rbind fst snd]);
+      rewrite ?(as_int_ok _ Ho), ?(m_repeat_ok _ Hr); cbn [rbind fst snd];
+      repeat (unfold m_block_override_step at 1; keys; cbn [rbind fst snd]);
+      rewrite ?(m_repeat_ok _ Hr); cbn [rbind fst snd];
+      destruct objs as [|o1 ot]; cbn [app foldM rbind fst snd ov_result class_of andb];
+      try reflexivity;
+      unfold m_block_override_step at 1; keys; reflexivity.
+  - (* register *)
+    cbn [object_ok] in Hok. unfold register_ok in Hok. repeat (apply andb_prop in Hok; destruct Hok as [Hok ?]).
+    rewrite foldM_app.
+    destruct h as [[c|] [|] n]; cbn [head_plain h_cfg h_doc h_name is_none negb andb];
+      unfold head_keys; cbn [h_cfg h_doc opt_key app foldM]; unfold m_register_override_step at 1; keys; cbn [rbind];
+      try (unfold m_register_override_step at 1; keys; cbn [rbind ov_result class_of]; reflexivity).
+    unfold register_keys.
+    rewrite foldM_app, (seg_m m_register_override_step "access" m_of_access
+                              (fun x s => upd_ro s x NN NN NN NN) always);
+      [|intros a0 _; unfold m_register_override_step; keys; rewrite m_access_ok; reflexivity
+       |reflexivity|apply opt_ok_always].
+    flat_ro.
+    destruct (ar_byte_order r) as [bo|]; cbn [opt_key app is_none andb];
+      [cbn [foldM]; unfold m_register_override_step at 1; keys; reflexivity|].
+    destruct (ar_bit_order r) as [bio|]; cbn [opt_key app is_none andb];
+      [cbn [foldM]; unfold m_register_override_step at 1; keys; reflexivity|].
+    rewrite foldM_app, (seg_m m_register_override_step "address" MInt
+                              (fun x s => upd_ro s NN x NN NN NN) in_i64);
+      [|intros a0 Ha0; unfold m_register_override_step; keys; rewrite (as_int_ok _ Ha0); reflexivity
+       |flat_ro; reflexivity|assumption].
+    flat_ro.
+    destruct (ar_size_bits r) as [sz|]; cbn [opt_key app is_none andb];
+      [cbn [foldM]; unfold m_register_override_step at 1; keys; reflexivity|].
+    rewrite foldM_app, (seg_m m_register_override_step "reset_value" m_of_reset
+                              (fun x s => upd_ro s NN NN NN x NN) reset_ok);
+      [|intros a0 Ha0; unfold m_register_override_step; keys; rewrite (m_reset_ok _ Ha0); reflexivity
+       |flat_ro; reflexivity|assumption].
+    flat_ro.
+    rewrite foldM_app, (seg_m m_register_override_step "repeat" m_of_repeat
+                              (fun x s => upd_ro s NN NN NN NN x) repeat_ok);
+      [|intros a0 Ha0; unfold m_register_override_step; keys; rewrite (m_repeat_ok _ Ha0); reflexivity
+       |flat_ro; reflexivity|assumption].
+    flat_ro.
+    destruct (ar_allow_bit_overlap r) as [abo|]; cbn [opt_key app is_none andb];
+      [cbn [foldM]; unfold m_register_override_step at 1; keys; reflexivity|].
+    rewrite foldM_app, (seg_m m_register_override_step "allow_address_overlap" MBool
+                              (fun x s => upd_ro s NN NN x NN NN) always);
+      [|intros a0 _; unfold m_register_override_step; keys; reflexivity
+       |flat_ro; reflexivity|apply opt_ok_always].
+    flat_ro.
+    destruct (ar_fields r) as [|f0 ft]; cbn [foldM rbind ov_result class_of].
+    + destruct (ar_access r), (ar_address r), (ar_reset r), (ar_repeat r); reflexivity.
+    + unfold m_register_override_step at 1; keys; reflexivity.
+  - (* command *)
+    cbn [object_ok] in Hok. unfold command_ok in Hok. repeat (apply andb_prop in Hok; destruct Hok as [Hok ?]).
+    rewrite foldM_app.
+    destruct h as [[c0|] [|] n]; cbn [head_plain h_cfg h_doc h_name is_none negb andb];
+      unfold head_keys; cbn [h_cfg h_doc opt_key app foldM]; unfold m_command_override_step at 1; keys; cbn [rbind];
+      try (unfold m_command_override_step at 1; keys; cbn [rbind ov_result class_of]; reflexivity).
+    unfold command_keys.
+    destruct (ak_byte_order c) as [bo|]; cbn [opt_key app is_none andb];
+      [cbn [foldM]; unfold m_command_override_step at 1; keys; reflexivity|].
+    destruct (ak_bit_order c) as [bio|]; cbn [opt_key app is_none andb];
+      [cbn [foldM]; unfold m_command_override_step at 1; keys; reflexivity|].
+    rewrite foldM_app, (seg_m m_command_override_step "address" MInt
+                              (fun x s => upd_co s x NN NN) in_i64);
+      [|intros a0 Ha0; unfold m_command_override_step; keys; rewrite (as_int_ok _ Ha0); reflexivity
+       |reflexivity|assumption].
+    flat_co.
+    rewrite foldM_app, (seg_m m_command_override_step "repeat" m_of_repeat
+                              (fun x s => upd_co s NN NN x) repeat_ok);
+      [|intros a0 Ha0; unfold m_command_override_step; keys; rewrite (m_repeat_ok _ Ha0); reflexivity
+       |flat_co; reflexivity|assumption].
+    flat_co.
+    destruct (ak_allow_bit_overlap c) as [abo|]; cbn [opt_key app is_none andb];
+      [cbn [foldM]; unfold m_command_override_step at 1; keys; reflexivity|].
+    rewrite foldM_app, (seg_m m_command_override_step "allow_address_overlap" MBool
+                              (fun x s => upd_co s NN x NN) always);
+      [|intros a0 _; unfold m_command_override_step; keys; reflexivity
+       |flat_co; reflexivity|apply opt_ok_always].
+    flat_co.
+    destruct (ak_size_in c) as [si|]; cbn [opt_key app is_none andb];
+      [cbn [foldM]; unfold m_command_override_step at 1; keys; reflexivity|].
+    destruct (ak_fields_in c) as [fi|]; cbn [opt_key app is_none andb];
+      [cbn [foldM]; unfold m_command_override_step at 1; keys; reflexivity|].
+    destruct (ak_size_out c) as [so|]; cbn [opt_key app is_none andb];
+      [cbn [foldM]; unfold m_command_override_step at 1; keys; reflexivity|].
+    destruct (ak_fields_out c) as [fo|]; cbn [opt_key app is_none andb foldM rbind ov_result class_of];
+      [unfold m_command_override_step at 1; keys; reflexivity|].
+    destruct (ak_address c), (ak_repeat c); reflexivity.
 Qed.
